@@ -726,6 +726,11 @@ pub fn c11(p: &Params) {
         let mut ops: Vec<u8> = (0..n).map(|_| rng.below(2) as u8).collect();
         if block_on {
             ops = (0..wakes_sent).map(|_| 2u8).collect();
+            // in half of the instances the stopping thread does nothing else: its stop() can
+            // land anywhere, also inside the poll that completes the future
+            if is_last && stopper && p.threads > 1 && (p.extra >> 7) & 1 == 1 {
+                ops.clear();
+            }
         }
         joins.push(shuttle::thread::spawn(move || {
             register_thread(i);
@@ -815,9 +820,13 @@ pub fn c11(p: &Params) {
                 let n = self.polls.fetch_add(1, O::SeqCst) + 1;
                 log(Ev::Poll { task: 0, th: me() });
                 if n > self.need {
+                    // the future is done; other threads (a stop request) may get in before the
+                    // poll has returned to block_on
+                    sp();
                     std::task::Poll::Ready(42)
                 } else {
                     *self.slot.lock().unwrap() = Some(cx.waker().clone());
+                    sp();
                     std::task::Poll::Pending
                 }
             }
